@@ -29,7 +29,7 @@ def r_pcgrad(c):
     with patched(torch, "randperm", lambda n, **k: torch.tensor(next(it))):
         out = PCGrad()(t64(J)).numpy()
     ref = _pc_reference_vec(J, orders)
-    return dict(reproduced=not close(out, ref), out=out.tolist(), reference=ref.tolist(), J=J.tolist())
+    return dict(reproduced=not close(out, ref, 1e-6, scale=np.abs(J).max()), out=out.tolist(), reference=ref.tolist(), J=J.tolist())
 
 
 HANDLERS["pcgrad_vec"] = r_pcgrad
@@ -44,7 +44,7 @@ def r_mgda(c):
     a = A.weighting(t64(J)).numpy()
     m = len(a)
     q = lambda v: float(v @ G @ v)
-    s = max(1.0, abs(G).max())
+    s = max(abs(G).max(), 1e-300)  # tolerances relative to the scale of the input
     bad = []
     if abs(a.sum() - 1) > TOL or a.min() < -TOL:
         bad.append("not on the simplex")
@@ -99,7 +99,7 @@ def r_cagrad(c):
     g0 = J.mean(0)
     lhs, rhs = float(np.linalg.norm(out - g0)), cc * float(np.linalg.norm(g0))
     zero = float(np.linalg.norm(out)) <= 1e-12
-    ok = zero or abs(lhs - rhs) <= 1e-4 * max(1.0, rhs)
+    ok = zero or abs(lhs - rhs) <= 1e-4 * max(np.abs(J).max(), rhs, 1e-300)
     return dict(reproduced=not ok, dist=lhs, expected=rhs, out=out.tolist())
 
 
